@@ -43,6 +43,20 @@ KIND = TElem(
 )
 
 
+def kind_class(k):
+    """type(kind) as a tag: two kinds have the same Python class iff the tags agree"""
+    return z3.If(Kind.is_NoneK(k), 0, z3.If(Kind.is_Boolean(k), 1, z3.If(Kind.is_Integer(k), 2, z3.If(
+        Kind.is_Scalar(k), 3, z3.If(Kind.is_Array(k), 4, 5)))))
+
+
+def type_of_kind(ctx, it, args, kw):
+    """type(x) for a kind value (compared with `is` / `==` only)"""
+    v = ctx.deref(args[0])
+    if isinstance(v, VElem) and v.ty is KIND:
+        return VInt(kind_class(v.t))
+    return VPy("<type>")
+
+
 def _ctor(name, mk):
     def construct(ctx, it, args, kwargs):
         vals = list(args) + list(kwargs.values())
